@@ -513,6 +513,8 @@ type retFact struct {
 	lenOf  bool
 	lo     int // res >= lo (valid if hasLo)
 	hasLo  bool
+	// geParam: res >= (entry value of) the integer parameter param, e.g. a scanner that only moves forward
+	geParam bool
 }
 
 type callCtx struct {
@@ -1196,7 +1198,51 @@ func (a *idxAnalyzer) assign(z *zone, lhs ast.Expr, rhs ast.Expr) {
 		}
 		return
 	}
+	// key = f(…, arg, …) where f only moves forward (res >= arg): relate the new value to the
+	// argument's value before the assignment (the argument may be key itself: j = scan(s, j))
+	var geArgs []*linExpr
+	if call, ok := ast.Unparen(rhs).(*ast.CallExpr); ok {
+		var fid types.Object
+		switch f := ast.Unparen(call.Fun).(type) {
+		case *ast.Ident:
+			fid = a.info.Uses[f]
+		case *ast.SelectorExpr:
+			if sel, ok := a.info.Selections[f]; ok {
+				fid = sel.Obj()
+			} else {
+				fid = a.info.Uses[f.Sel]
+			}
+		}
+		for _, f := range a.retLE[fid] {
+			if f.geParam && f.res == 0 && f.param < len(call.Args) {
+				if la, ok := a.lin(call.Args[f.param]); ok {
+					geArgs = append(geArgs, la)
+				}
+			}
+		}
+	}
+	const preTerm = "pre#arg"
+	for i, la := range geArgs {
+		// snapshot: pre = arg
+		pk := fmt.Sprintf("%s%d", preTerm, i)
+		pl := &linExpr{t: map[string]int{pk: 1}}
+		a.constrainLE(z, linSub(pl, la), 0)
+		a.constrainLE(z, linSub(la, pl), 0)
+	}
+	if len(geArgs) > 0 {
+		z.close() // materialise what other terms know about the argument before it is overwritten
+	}
 	z.forget(key)
+	for i := range geArgs {
+		pk := fmt.Sprintf("%s%d", preTerm, i)
+		z.add(pk, key, 0) // pre - key <= 0
+	}
+	if len(geArgs) > 0 {
+		z.close()
+		for i := range geArgs {
+			z.forget(fmt.Sprintf("%s%d", preTerm, i))
+		}
+	}
 	a.libResult(z, key, rhs)
 }
 
@@ -1435,6 +1481,15 @@ func (a *idxAnalyzer) applyRetFacts(z *zone, lhs []ast.Expr, call *ast.CallExpr)
 			continue
 		}
 		if f.param >= len(call.Args) {
+			continue
+		}
+		if f.geParam {
+			// arg - res <= 0
+			if la, ok := a.lin(call.Args[f.param]); ok {
+				if lr, ok := a.lin(lhs[f.res]); ok {
+					a.constrainLE(z, linSub(la, lr), 0)
+				}
+			}
 			continue
 		}
 		if f.lenOf {
